@@ -127,6 +127,9 @@ func (self *Fork) isStrictVolatile() bool {
 
 func (self *Fork) partialVdrKill() (*VDRKillReport, bool) {
 	util.VerifPoint("vdr:partial:begin", self.fqname)
+	if self.node.vdrAcrossSymlink() {
+		return nil, true
+	}
 	self.storageLock.Lock()
 	defer self.storageLock.Unlock()
 	if state := self.getState(); state.IsFailed() {
@@ -1046,6 +1049,19 @@ func (self *Node) vdrCheckSymlink() (string, error) {
 	}
 
 	return self.parent.getNode().vdrCheckSymlink()
+}
+
+// Returns true if self or any of its ancestors is a symlink, in which case
+// removing files below it could remove data which was moved elsewhere.
+func (self *Node) vdrAcrossSymlink() bool {
+	if symlink, _ := self.vdrCheckSymlink(); symlink != "" {
+		if self.top.rt.Config.Debug {
+			util.LogInfo("storage", "Refuse to VDR across a symlink %s: %v",
+				symlink, self.GetFQName())
+		}
+		return true
+	}
+	return false
 }
 
 func (self *Node) vdrKill() (*VDRKillReport, bool) {
